@@ -30,6 +30,7 @@ type evalCtx struct {
 	entryName func(name string) (Val, bool)
 	inQuant bool
 	calleeFact bool // evaluating a callee's contract at a call site
+	wantAddr   bool // &x.f: the selector yields the field's address
 	loopEntry *State
 }
 
@@ -125,7 +126,12 @@ func (e *evalCtx) eval(x ast.Expr) Val {
 		case token.SUB:
 			return mathInt(sub("0", e.intOf(t.X)))
 		case token.AND:
-			e.fail("address-of in contract")
+			if sel, ok := t.X.(*ast.SelectorExpr); ok {
+				n := *e
+				n.wantAddr = true
+				return n.selector(sel)
+			}
+			e.fail("address-of in contract (only &x.f is supported)")
 		}
 	case *ast.StarExpr:
 		p := e.eval(t.X)
@@ -540,6 +546,83 @@ func (e *evalCtx) call(t *ast.CallExpr) Val {
 			e.fail("entry(%s): no such parameter", id2.Name)
 		}
 		return v
+	case "onlyobjs":
+		// onlyobjs(s1, s2, ...): among the objects that existed in the
+		// reference state (old state / loop entry), only those of s1, s2, ...
+		// have changed elements (of the element types of the arguments).
+		ref := e.old
+		if ref == nil {
+			ref = e.loopEntry
+		}
+		if ref == nil {
+			e.fail("onlyobjs outside a two-state context")
+		}
+		byKey := map[string][]string{}
+		sorts := map[string]string{}
+		var order []string
+		for _, a := range t.Args {
+			v := e.eval(a)
+			if v.K != kSlice {
+				e.fail("onlyobjs needs slices")
+			}
+			for _, k := range elemKeys(v.Root) {
+				if k.array {
+					e.fail("onlyobjs on slice of structs with arrays")
+				}
+				if _, ok := byKey[k.key]; !ok {
+					order = append(order, k.key)
+				}
+				byKey[k.key] = append(byKey[k.key], v.Ref)
+				sorts[k.key] = sortOf(k.typ)
+			}
+		}
+		var cs []string
+		for _, key := range order {
+			hn := c.heapGet(e.st, key, sorts[key])
+			ho := c.heapGet(ref, key, sorts[key])
+			if hn == ho {
+				continue
+			}
+			c.qctr++
+			r := fmt.Sprintf("r_q%d", c.qctr)
+			conds := []string{sx("<", sx("objroot", r), ref.wm)}
+			for _, x := range byKey[key] {
+				conds = append(conds, not(eq(r, x)))
+			}
+			cs = append(cs, fmt.Sprintf("(forall ((%s Int)) (=> %s (= (select %s %s) (select %s %s))))", r, and(conds...), hn, r, ho, r))
+		}
+		return boolVal(and(cs...))
+	case "sameoutside":
+		// sameoutside(s): every element of s's object outside
+		// [off(s), off(s)+len(s)) is as in the reference state (old state in a
+		// postcondition, loop entry in an invariant). Frame facts for loops.
+		v := e.eval(t.Args[0])
+		if v.K != kSlice {
+			e.fail("sameoutside needs a slice")
+		}
+		ref := e.old
+		if ref == nil {
+			ref = e.loopEntry
+		}
+		if ref == nil {
+			e.fail("sameoutside outside a two-state context")
+		}
+		var cs []string
+		for _, k := range elemKeys(v.Root) {
+			if k.array {
+				e.fail("sameoutside on slice of structs with arrays")
+			}
+			ls := sortOf(k.typ)
+			hn := c.heapGet(e.st, k.key, ls)
+			ho := c.heapGet(ref, k.key, ls)
+			if hn == ho {
+				continue
+			}
+			c.qctr++
+			a := fmt.Sprintf("a_q%d", c.qctr)
+			cs = append(cs, fmt.Sprintf("(forall ((%s Int)) (=> (or (< %s %s) (>= %s %s)) (= (select (select %s %s) %s) (select (select %s %s) %s))))", a, a, v.Off, a, add(v.Off, v.Len), hn, v.Ref, a, ho, v.Ref, a))
+		}
+		return boolVal(and(cs...))
 	case "row":
 		// row(s): the element array of the object a slice / array pointer lives in
 		// (index it with off(s)+i); only for elements stored as one term.
@@ -570,15 +653,19 @@ func (e *evalCtx) call(t *ast.CallExpr) Val {
 	case "newobj":
 		// newobj(x): x refers to an object allocated during the call
 		// (not before the pre-state); false for nil
-		if e.old == nil {
+		refSt := e.old
+		if refSt == nil {
+			refSt = e.loopEntry // in an invariant: allocated since the loop was entered
+		}
+		if refSt == nil {
 			e.fail("newobj() outside a two-state context")
 		}
 		a := e.eval(t.Args[0])
 		switch a.K {
 		case kSlice, kPtr:
-			return boolVal(sx(">=", a.Ref, e.old.wm))
+			return boolVal(sx(">=", a.Ref, refSt.wm))
 		case kIface, kMap:
-			return boolVal(sx(">=", a.S, e.old.wm))
+			return boolVal(sx(">=", a.S, refSt.wm))
 		}
 		e.fail("newobj of kind %d", a.K)
 	case "sameobj":
@@ -863,6 +950,12 @@ func (e *evalCtx) slice(t *ast.SliceExpr) Val {
 
 func (e *evalCtx) selector(t *ast.SelectorExpr) Val {
 	c := e.c
+	wantAddr := e.wantAddr
+	if wantAddr {
+		n := *e
+		n.wantAddr = false
+		e = &n
+	}
 	// package-qualified constant?
 	if id, ok := t.X.(*ast.Ident); ok {
 		if _, isBound := e.bound[id.Name]; !isBound {
@@ -916,6 +1009,9 @@ func (e *evalCtx) selector(t *ast.SelectorExpr) Val {
 		fp := c.fieldAddr(cur, idx, types.NewPointer(ft))
 		if _, isArr := ft.Underlying().(*types.Array); isArr {
 			return fp // arrays are used through their address (indexing, slicing)
+		}
+		if wantAddr {
+			return fp
 		}
 		return e.load(fp, ft)
 	case kStruct:
